@@ -269,6 +269,9 @@ func main() {
 		callsOf:     map[*types.Func][]callInfo{},
 		fieldWrites: map[*types.Var][]fieldWrite{},
 	}
+	// Delete the generated table first: a failed extraction must not leave a
+	// stale one for the proofs to pass on.
+	_ = os.Remove(filepath.Join(verifRoot(), "lean/AGH/Gen/C17OpenSites.lean"))
 	x.pkgs = load.Packages("./internal/...", ".")
 	if len(x.pkgs) == 0 {
 		fmt.Fprintln(os.Stderr, "extract c17: no packages")
@@ -1345,10 +1348,7 @@ func rootVar(info *types.Info, e ast.Expr) types.Object {
 // ---------------------------------------------------------------- output
 
 func (x *extractor) write() {
-	verif := os.Getenv("VERIF_ROOT")
-	if verif == "" {
-		verif = "/verif"
-	}
+	verif := verifRoot()
 	genPath := filepath.Join(verif, "lean/AGH/Gen/C17OpenSites.lean")
 	_ = os.Remove(genPath)
 	must(os.MkdirAll(filepath.Dir(genPath), 0o755))
@@ -1434,6 +1434,14 @@ func (x *extractor) write() {
 	must(os.WriteFile(filepath.Join(factsDir, "facts.json"), b, 0o644))
 	fmt.Printf("c17: %d file-system sites (%d in filtering), %d fed by a filter URL, %d URL writes (%d from requests), %d refs to the unwired implementation\n",
 		sum.Sites, sum.SitesFiltering, len(sum.URLFed), sum.URLWrites, sum.URLWritesReq, len(x.nextRefs))
+}
+
+func verifRoot() string {
+	if v := os.Getenv("VERIF_ROOT"); v != "" {
+		return v
+	}
+
+	return "/verif"
 }
 
 func shortCallee(s string) string {
